@@ -649,6 +649,9 @@ class Nodes:
             typed_value = value
         except SyntaxError:
             typed_value = value
+        except (TypeError, MemoryError, RecursionError):
+            # literal_eval also raises these for malformed input like "{[1]:2}"
+            typed_value = value
         return typed_value
 
     @staticmethod
